@@ -18,7 +18,7 @@ T = {
     "D1": "lemma D1 (DC bin <-> mean): proved in Lean 4 + Mathlib from the DFT sums of the transform contract (lemmas/DFT.lean, checked in the thorough tier); conformance of the installed FFT layer to those sums is bounded", "D2": "lemma D2 (linearity of the DFT): proved in Lean from the DFT sums (lemmas/DFT.lean)",
     "D3": "lemma D3 (shift theorem): proved in Lean from the DFT sums (lemmas/DFT.lean)", "D4": "lemma D4 (convolution / reciprocity, DESIGN B.2, incl. offset = translation): proved in Lean from the DFT sums (lemmas/DFT.lean)",
     "D5": "lemma D5 (reflection, mirror, transposition; analysis and synthesis side): proved in Lean from the DFT sums (lemmas/DFT.lean)",
-    "LCONV": "textbook theorem L-conv (a consistent, stable one-step method converges with its order; DESIGN B.3) assumed, not mechanised",
+    "LCONV": "theorem L-conv (DESIGN B.3): the implication stability + local error of order p+1 => global error <= exp(C Z) D Z H^p is proved in Lean (lemmas/Conv.lean, discrete Gronwall); that the extracted step has a local error of that order for smooth VARYING coefficients (Taylor expansion of the ODE solution) and is stable on the resolved regime remains a stated textbook fact",
     "IVPC": "contract IVP of ivp_solver used at its two call sites in S (verified separately in this same run)",
     "Z3": "z3 (LIA/EUF/NRA) and the exact polynomial-identity normaliser of pyvc.valueview / pyvc.stepalg",
     "MAP": "concurrent.futures.Executor.map yields results in task order irrespective of completion order and worker count (DESIGN 3.2; bounded conformance in bounded/C14.py)",
@@ -33,7 +33,7 @@ TECH = "contracts (pre/post/exceptional post, constructive loop invariants, fram
 
 PROPERTIES = {
     "C01": {
-        "modules": ["ivp", "solver", "purity"], "level": "other", "floor": 500,
+        "modules": ["ivp", "solver", "purity"], "lean": "lemmas/Conv.lean", "level": "other", "floor": 500,
         "assumptions": SOLVER_ASSUME, "trusted": [T["Z3"], T["LCONV"], T["DFT"], T["IVPC"]],
         "explanation": "PROVED for all inputs: each layer step applied by ivp_solver is linear in the state, reads only its own layer (profiles at nodes i/i+1, z[i+1]-z[i], the mode's wavenumbers) and agrees with exp(dz*M) of the stated per-mode BVP through first order for any in-layer sampling (orders 0,1 of the extracted step; consistency); both boundary conditions are imposed exactly by the shooting combination (clause of the spectral contract SC of S: Hq(bottom)=1 via Prop(0)=I and the two initial states, Hq(top)=Kz*lambda*Hp(top) algebraically), the eigenvalue is the principal root of the TOP-node coefficients; every retained non-constant bin is treated this way (SC for all sizes/halos/modes). ASSUMED: the convergence theorem L-conv turning consistency+stability into convergence. BOUNDED only: the quantitative rate (error <= 3*max(dz/z), ratio >= 2.5 when the layer thickness is quartered) against an independent Riccati integration (bounded/C01.py).",
         "level_text": "Discretisation contract proved for all inputs (consistency, locality, exact boundary conditions, spectral assembly); convergence follows by an assumed textbook theorem; the numerical rate is a bounded refinement study, labelled bounded.",
@@ -61,7 +61,7 @@ PROPERTIES = {
         "level_note": "A1-A8; D2 proved in Lean (lemmas/DFT.lean).",
     },
     "C05": {
-        "modules": ["ivp", "solver", "lemmas", "purity"], "level": "proof", "floor": 500,
+        "modules": ["ivp", "solver", "lemmas", "purity"], "lean": "lemmas/Conv.lean", "level": "proof", "floor": 500,
         "assumptions": SOLVER_ASSUME, "trusted": [T["Z3"], T["LCONV"], T["DFT"], T["IVPC"]],
         "explanation": "Analytic branch: SC[analytic] states Hq = exp(-lambda*h), Hp = Hq/(Kz*lambda), mean p000 - S00*h/Kz, assembled through the SAME padding/truncation/shift/crop obligations as the numerical mode; the closed form solves the BVP (lemma). Design order: the h^k coefficients (k=0..3) of every entry of the step matrix extracted from the loop body equal those of exp(h*M) (16 exact polynomial identities). 'About eightfold' is the corollary via L-conv; measured only by the bounded stand-in.",
         "level_text": "Closed form and third-order conditions proved exactly on the real code; the measured ratio is bounded.",
@@ -182,7 +182,7 @@ for _k, _p in PROPERTIES.items():
 for _k, _p in PROPERTIES.items():
     _p.setdefault("dft_conformance", _k in ("C01", "C02", "C03", "C04", "C05", "C06", "C07", "C10", "C11", "C12"))
 for _p in PROPERTIES.values():
-    _p.setdefault("technique", TECH + ("; lemmas over the contracts checked by Lean 4 + Mathlib in the thorough tier (%s)" % _p["lean"] if _p.get("lean") else "")
+    _p.setdefault("technique", TECH + ("; lemmas over the contracts checked by Lean 4 + Mathlib in the thorough tier (%s)" % (_p["lean"] if isinstance(_p["lean"], str) else ", ".join(_p["lean"])) if _p.get("lean") else "")
                   + ("; order clauses over exp/log by z3 with ground axiom instances" if _k == "C09" else ""))
     _p.setdefault("bounded", True)
 
